@@ -24,6 +24,12 @@ def run(ctx):
     if s:
         for m in s["mismatches"]:
             ctx.report({"kind": "piecewise-" + m["kind"]}, "Piecewise xs=%s ys=%s at %s: %s" % (m.get("xs"), m.get("ys"), m.get("q"), m["detail"]), m)
+    # tables of 9 to 13 knots (a lookup that treats long tables differently is only reached there)
+    cases_long = exact.tlc_cases(ctx, "MCPiecewise", "Piecewise_long.cfg", timeout=600)
+    s = exact.run_exact(ctx, cases_long, ["rootfind", "piecewise"], "piecewise-long")
+    if s:
+        for m in s["mismatches"]:
+            ctx.report({"kind": "piecewise-" + m["kind"]}, "Piecewise xs=%s ys=%s at %s: %s" % (m.get("xs"), m.get("ys"), m.get("q"), m["detail"]), m)
     for cfg in ("RootFind_TRUE.cfg", "RootFind_FALSE.cfg"):
         r = ctx.tlc("RootFind", cfg=cfg, timeout=1800)
         r.require_ok(cfg)
